@@ -188,6 +188,16 @@ def t_config(ctx, rng):
         check(ctx, 'config-load-raises', case, False, 'a reader', pyenv.errname(ex), 'load(to_bytes(v)) raised')
         return
     got = [(k, v.flags, v.data) for k, v in back.blocks.items()]
+    # the Coq model of load / to_bytes (Model/CfgSave.v, round trip proved) on the same image, with the module's own strict table
+    table = ','.join('%x:%x:%x' % (k, v['flags'], v['size']) for k, v in sorted(KNOWN_BLOCKS.items())) or '-'
+    out = model('codec cfgsave %s %s' % (table, hx(raw)))
+    if out is not None:
+        want = ','.join('%x:%x:%s' % (k, f, d.hex()) for k, f, d in got) + ' ' + hx(back.to_bytes())
+        if out != want:
+            a, b = out.split(' '), want.split(' ')
+            k = 0 if a[0] != b[0] else 1
+            ctx.diff('corr', 'config-model', case, a[k][:120], b[k][:120], 'config save: Coq model and implementation differ (' + ('loaded blocks' if k == 0 else 're-serialised image') + ')')
+        ctx.stat('config_model')
     check(ctx, 'config-roundtrip', case, got == blocks, str(blocks)[:200], str(got)[:200], 'config save load(to_bytes(v)) != v')
     check(ctx, 'config-canonical', case, back.to_bytes() == raw and len(raw) == 0x8000, 'same image', 'different', 'config save to_bytes(load(b)) != b')
 
@@ -384,7 +394,7 @@ def run_all(ctx, rng, n):
 
 
 def run(ctx):
-    proof = prove('C20', ['tmd', 'smdh', 'difi'], ['C20_props'], static_deps=['Base/Sweep.v', 'Base/Fields.v', 'Base/PyInt.v', 'Proofs/CodecsProofs.v', 'Proofs/NandProofs.v'])
+    proof = prove('C20', ['tmd', 'smdh', 'difi'], ['C20_props'], static_deps=['Proofs/CfgSaveProofs.v', 'Base/Sweep.v', 'Base/Fields.v', 'Base/PyInt.v', 'Proofs/CodecsProofs.v', 'Proofs/NandProofs.v'])
     MR[0] = ModelRunner()
     try:
         run_all(ctx, ctx.rng, ctx.n(700, 30000))
